@@ -72,6 +72,8 @@ pub struct World {
     /// certificate hashes in order of first appearance in the store
     pub cert_order: RefCell<Vec<String>>,
     pub restarts: u32,
+    /// controller of the verif_hooks points (installed on this thread for the life of the world)
+    pub ctl: crate::ctl::Ctl,
 }
 
 pub fn logger() -> slog::Logger {
@@ -145,6 +147,7 @@ impl World {
     pub async fn new(dir: PathBuf, nsigners: usize, with_transactions: bool) -> World {
         let _ = std::fs::remove_dir_all(&dir);
         std::fs::create_dir_all(&dir).unwrap();
+        let ctl = crate::ctl::Ctl::install();
         let config = configuration(&dir, with_transactions);
         let start = start_time_point();
         let immutable_file_observer = Arc::new(DumbImmutableFileObserver::new());
@@ -182,6 +185,7 @@ impl World {
             registered_in_epoch: RefCell::new(BTreeMap::new()),
             cert_order: RefCell::new(vec![]),
             restarts: 0,
+            ctl,
         };
         // init_state_from_fixture_for_genesis stores every signer under epochs 0 and 1, i.e. as if
         // they had registered during epochs -1 and 0: they sign in epochs 1 and 2.
@@ -203,6 +207,7 @@ impl World {
         self.open_messages = open_messages;
         self.ticker = ticker;
         self.metrics = metrics;
+        self.ctl.node_restarted();
         self.restarts += 1;
     }
 
@@ -219,11 +224,28 @@ impl World {
         self.outside.digester.update_merkle_tree(vec![tp.immutable_file_number.to_string()]).await;
     }
 
-    /// let spawned background work (artifact tasks) run to completion
+    /// let spawned background work (artifact tasks) run to completion: the artifact gate is opened
+    /// and the harness waits until no signed entity type is locked any more (artifact production
+    /// uses the blocking thread pool, so a fixed number of yields would race with it)
     pub async fn quiesce(&self) {
-        for _ in 0..200 {
+        self.ctl.open_artifact_gate();
+        let t0 = std::time::Instant::now();
+        loop {
+            for _ in 0..20 {
+                tokio::task::yield_now().await;
+            }
+            if !self.deps.signed_entity_type_lock.has_locked_entities().await {
+                break;
+            }
+            if t0.elapsed() > std::time::Duration::from_secs(30) {
+                break;
+            }
+            tokio::time::sleep(std::time::Duration::from_millis(1)).await;
+        }
+        for _ in 0..20 {
             tokio::task::yield_now().await;
         }
+        self.ctl.close_artifact_gate();
     }
 
     pub async fn tick(&self) -> Result<(), String> {
